@@ -263,6 +263,8 @@ type caseRun struct {
 	decObs  map[string][]string        // per mode: Coq option (Z*Z) per decorator
 	exec    string                     // Coq option
 	notes   map[string]interface{}
+	cur     uint64 // last committed height when the transaction was built
+	wvals   string // Coq term LaneWire.wvals of the encoded values
 	decodeError bool // the tx decoder refused the bytes (expected exactly for an extension option with an unregistered type URL)
 }
 
@@ -296,7 +298,7 @@ func TestDriverAnte(t *testing.T) {
 			"restrictions (inside the property's quantifier): fee price = 2 x base fee so node min-gas-prices never decides; Cosmos-lane envelopes are single-signer (SDK faults limited to wrong sequence / low fee); "+
 			"non-shape Ethereum faults limited to wrong nonce / wrong From / unsigned; re-check of mixed transactions only with a canonical envelope; "+
 			"oracle in re-check mode applies to transactions that passed CheckTx (the code skips decorator 03 on re-check)")
-	cases := NewCases(dir, "From Evm Require Import Lane CorrLane.", "lane_mismatches")
+	cases := NewCases(dir, "From Evm Require Import Lane LaneWire CorrLane.", "lane_mismatches")
 
 	// the disabled-message table, regenerated from the running code
 	tbl := antedl.HandlerOptions{}.WithDefaultDisabledNestedMsgs().DisabledNestedMsgs
@@ -434,6 +436,13 @@ func maxi(a, b int) int {
 
 func (w *world) genSpec(r *Rng, cr *caseRun) *txSpec {
 	s := &txSpec{}
+	if cr.idx <= len(sweep) {
+		// the first cases of every run, whatever the seed: an otherwise canonical Ethereum-lane transaction with exactly ONE
+		// envelope field set, once for every value kind of every field
+		s.Family = "eth"
+		w.genSweep(sweep[cr.idx-1], cr, s)
+		return s
+	}
 	switch f := r.Intn(100); {
 	case f < 36:
 		s.Family = "eth"
@@ -450,6 +459,74 @@ func (w *world) genSpec(r *Rng, cr *caseRun) *txSpec {
 		w.genCosmos(r, cr, s)
 	}
 	return s
+}
+
+type sweepItem struct{ field, kind string }
+
+var extSweep = [][]string{{}, {"dyn"}, {"eth", "eth"}, {"eth", "dyn"}, {"dyn", "eth"}, {"eth", "eth", "eth"}, {"unk"}, {"eth", "unk"}}
+var nonCritSweep = [][]string{{"eth"}, {"dyn"}, {"unk"}, {"eth", "dyn"}}
+
+var sweep = func() []sweepItem {
+	var out []sweepItem
+	add := func(field string, kinds []string) {
+		seen := map[string]bool{}
+		for _, k := range kinds {
+			if !seen[k] {
+				seen[k] = true
+				out = append(out, sweepItem{field, k})
+			}
+		}
+	}
+	add("timeout_height", timeoutKindsAll)
+	add("memo", memoKinds)
+	add("signatures", sigKinds)
+	add("signer_infos", infoKinds)
+	add("payer", payerKinds)
+	add("granter", granterKinds)
+	add("fee", feeKinds)
+	add("gas_limit", gasKinds)
+	add("tip", []string{"evm-denom", "other-denom"})
+	for i := range extSweep {
+		out = append(out, sweepItem{"ext", fmt.Sprint(i)})
+	}
+	for i := range nonCritSweep {
+		out = append(out, sweepItem{"noncrit", fmt.Sprint(i)})
+	}
+	return out
+}()
+
+func (w *world) genSweep(it sweepItem, cr *caseRun, s *txSpec) {
+	s.Msgs = []*gmsg{{Kind: kEth, Eth: &ethSpec{Variant: "ok"}}}
+	s.Ext = []string{"eth"}
+	cr.notes["feeK"] = ""
+	cr.notes["gasK"] = ""
+	cr.notes["sweep"] = it.field + ":" + it.kind
+	var i int
+	fmt.Sscan(it.kind, &i)
+	switch it.field {
+	case "timeout_height":
+		s.TimeoutK = it.kind
+	case "memo":
+		s.MemoK = it.kind
+	case "signatures":
+		s.SigK = it.kind
+	case "signer_infos":
+		s.InfoK = it.kind
+	case "payer":
+		s.PayerK = it.kind
+	case "granter":
+		s.GranterK = it.kind
+	case "fee":
+		cr.notes["feeK"] = it.kind
+	case "gas_limit":
+		cr.notes["gasK"] = it.kind
+	case "tip":
+		s.TipK = it.kind
+	case "ext":
+		s.Ext = extSweep[i]
+	case "noncrit":
+		s.NonCrit = nonCritSweep[i]
+	}
 }
 
 var ethVariants = []string{"ok", "ok", "ok", "ok", "ok", "ok", "ok", "legacy", "legacy", "unprotected", "unsigned", "badgas", "badnonce", "badfrom"}
@@ -480,10 +557,10 @@ func (w *world) genEthLane(r *Rng, cr *caseRun, s *txSpec) {
 		}
 	}
 	if dev[0] {
-		s.Ext = [][]string{{}, {"dyn"}, {"eth", "eth"}, {"eth", "dyn"}, {"dyn", "eth"}, {"eth", "eth", "eth"}, {"unk"}, {"eth", "unk"}}[r.Intn(8)]
+		s.Ext = extSweep[r.Intn(len(extSweep))]
 	}
 	if dev[1] {
-		s.NonCrit = [][]string{{"eth"}, {"dyn"}, {"unk"}, {"eth", "dyn"}}[r.Intn(4)]
+		s.NonCrit = nonCritSweep[r.Intn(len(nonCritSweep))]
 	}
 	if dev[2] {
 		s.SigK = pick(r, sigKinds)
@@ -519,6 +596,20 @@ func (w *world) genEthLane(r *Rng, cr *caseRun, s *txSpec) {
 }
 
 func (w *world) genMixed(r *Rng, cr *caseRun, s *txSpec) {
+	if r.Chance(14) {
+		// nothing but Ethereum messages, two or three of them, in an envelope that would be right for one (or for their sum)
+		n := 2 + r.Intn(2)
+		for i := 0; i < n; i++ {
+			s.Msgs = append(s.Msgs, &gmsg{Kind: kEth, Eth: &ethSpec{Variant: "ok"}})
+		}
+		s.Ext = [][]string{{"eth"}, {"eth"}, {"eth"}, {}}[r.Intn(4)]
+		cr.notes["feeK"] = []string{"", "", "double"}[r.Intn(3)]
+		cr.notes["gasK"] = []string{"", "", "double"}[r.Intn(3)]
+		if r.Chance(25) {
+			s.MemoK = pick(r, memoKinds)
+		}
+		return
+	}
 	n := 2 + r.Intn(3)
 	pos := r.Intn(n)
 	for i := 0; i < n; i++ {
@@ -853,6 +944,21 @@ func (w *world) derive(cr *caseRun, raw *RawTx, e *ethSpec, cur uint64) {
 			s.PayerCanPay = exists(raw.Payer)
 		}
 	}
+	sl := make([]string, len(raw.Signatures))
+	for i, x := range raw.Signatures {
+		sl[i] = CqZi(int64(len(x)))
+	}
+	il := make([]string, len(raw.SignerInfos))
+	for i, x := range raw.SignerInfos {
+		il[i] = CqBool(x.PublicKey != nil)
+	}
+	fl := make([]string, len(s.Fee))
+	for i, f := range s.Fee {
+		fl[i] = fmt.Sprintf("(%s%%N, %s%%Z)", f[0], f[1])
+	}
+	cr.cur = cur
+	cr.wvals = fmt.Sprintf("(Build_wvals %s %s %s %s %s %s %s %s)", CqList(sl), CqList(il), CqZi(int64(len(raw.Payer))), CqZi(int64(len(raw.Granter))),
+		CqZi(int64(len(raw.Memo))), CqZu(raw.Timeout), CqList(fl), CqZu(raw.Gas))
 	cr.notes["values"] = map[string]interface{}{
 		"timeout_height": fmt.Sprint(raw.Timeout), "memo_len": len(raw.Memo), "memo": fmt.Sprintf("%q", truncate(raw.Memo, 24)),
 		"signatures": sigLens(raw.Signatures), "signer_infos": s.InfoK, "payer": raw.Payer, "granter": raw.Granter,
@@ -1120,7 +1226,9 @@ func (w *world) emit(cr *caseRun, cases *CasesFile, side *Sidecar, prop string) 
 	// for which Lane.xopt has no constructor); the direct oracle below still applies to them
 	unk := hasUnknownOption(s)
 	if !cr.decodeError && !unk {
-		cases.Add(fmt.Sprintf("(CTx (Build_txcase %s %s %s %s %s %s %s %s %s))", s.shapeCoq(), CqList(proven), sdkVb, CqList(rest),
+		// the wire VALUES next to the case: Corr/CorrLane.v (CTxW) recomputes the shape from them with Model/LaneWire.v
+		cases.Add(fmt.Sprintf("(CTxW %s %s %s (Build_txcase %s %s %s %s %s %s %s %s %s))", CqZi(maxMemoCharacters), CqZu(cr.cur), cr.wvals,
+			s.shapeCoq(), CqList(proven), sdkVb, CqList(rest),
 			CqBool(s.PayerCanPay), CqBool(s.GranterAllows), CqList(obs), CqList(decs), cr.exec))
 	}
 
